@@ -1143,6 +1143,8 @@ class Interp:
             k = kw["key"]
             return {"sorted": sorted, "min": min, "max": max}[fname](
                 args[0], key=lambda v_: self.call_function(k.fn, [v_], k.env))
+        if fname == "dict" and not args and kw and "dict" not in env:
+            return dict(kw)         # dict(name=value, ...): values as they are
         if fname in _BUILTINS:
             def host(v):
                 # interpreted functions handed to a builtin (reduce, map, key=)
@@ -1198,6 +1200,12 @@ class Interp:
             fv = None
         if isinstance(fv, (Closure, Bound, Partial)):
             return self.apply(fv, args, kw)
+        if isinstance(fv, Obj):
+            # an instance applied: its class's __call__
+            r = self.method(fv, "__call__")
+            if r is not None and r[0] == "func":
+                return self.call_function(r[1], [fv] + list(args),
+                                          dict(self.globals, __kwargs__=kw))
         if callable(fv) and not isinstance(fv, (Opaque, type)):
             return fv(*args, **kw)
         if isinstance(fv, Opaque) and fv.what.startswith("class "):
